@@ -512,7 +512,8 @@ def gen_misc(tier, rng):
             cond = A(rng, numpy.broadcast_shapes(s1, s2), "bool", poly=False)
             yield {"fn": "where", "args": [cond, a(s1), a(s2, poly=rng.random() < 0.6)], "kwargs": {}}
             yield {"fn": "where", "args": [A(rng, s1, "bool", poly=False), a(s1), a(s2)], "kwargs": {}}
-        for s1, s2 in [((), ()), ((3,), (3,)), ((2, 3), (3,)), ((3,), (2, 3)), ((2, 3), (4, 3)), ((), (3,)), ((2, 2, 3), (3,))]:
+        for s1, s2 in [((), ()), ((3,), (3,)), ((2, 3), (3,)), ((3,), (2, 3)), ((2, 3), (4, 3)), ((), (3,)), ((2, 2, 3), (3,)),
+                       ((2, 3), (2, 4, 3)), ((4, 3), (2, 2, 3)), ((2, 2, 3), (2, 4, 3)), ((3,), (2, 4, 3)), ((2, 2, 3), (4, 3)), ((2, 1), (3, 2, 1))]:
             yield {"fn": "inner", "args": [a(s1), a(s2, poly=rng.random() < 0.6)], "kwargs": {}}
         for s1, s2 in [((2, 3), (3, 4)), ((1, 3), (3, 1)), ((2, 2, 3), (3, 2)), ((2, 2, 3), (2, 3, 1)), ((2, 3), (2, 3, 2))]:
             yield {"fn": "matmul", "args": [a(s1), a(s2, poly=rng.random() < 0.6)], "kwargs": {}}
